@@ -154,6 +154,9 @@ class Violation(Exception):
 
 # ----------------------------------------------------------------- batches --
 
+_process_history = []      # run indices this worker process has executed
+
+
 def _worker_chunk(args):
     modname, tier, seed, indices, hang_s = args
     faulthandler.dump_traceback_later(hang_s, exit=True)
@@ -164,6 +167,7 @@ def _worker_chunk(args):
                    samples=[], states=set(), errors=[])
         for i in indices:
             rs = derive(seed, mod.ID, tier, i)
+            _process_history.append(i)
             try:
                 prog = mod.generate(rs, tier)
                 out = mod.execute(prog)
@@ -199,7 +203,8 @@ def _worker_chunk(args):
                 agg["violations"].append(dict(
                     index=i, run_seed=rs, program=prog,
                     violation=out["violation"],
-                    chunk_prefix=[j for j in indices if j <= i]))
+                    chunk_prefix=[j for j in indices if j <= i],
+                    process_history=list(_process_history)))
                 if len(agg["violations"]) >= 3:
                     break
         return agg
@@ -441,6 +446,41 @@ def minimise(mod, prog, cls, max_evals=600, max_wall=90):
     return prog, max_evals - budget[0]
 
 
+def _minimise_history(mod, multi, cls, path, max_wall=150):
+    """ddmin over whole runs of a cross-run history.  Each candidate is
+    judged in a *fresh interpreter* (the state being hunted is process
+    global, so the main process - which has run other things - is no judge)."""
+    import tempfile
+    deadline = time.time() + max_wall
+    budget = [200, deadline]
+    tmpdir = tempfile.mkdtemp(prefix="dsimhist", dir="/dev/shm")
+    n = [0]
+
+    def test(cand):
+        if len(cand) < 1:
+            return False
+        n[0] += 1
+        pth = os.path.join(tmpdir, "cand.json")
+        doc = dict(property=mod.ID, program=dict(multi=cand),
+                   violation=dict(cls=cls))
+        with open(pth, "w") as f:
+            json.dump(jsonable(doc), f)
+        ok, _ = verify_replay_fresh(pth, cls)
+        return ok
+    try:
+        runs = list(multi["multi"])
+        # the last run is the one that violates: keep it, shrink the prefix
+        last = runs[-1]
+        pre = ddmin_list(runs[:-1], lambda c: test(c + [last]), budget)
+        return dict(multi=pre + [last]), n[0]
+    except Exception:
+        traceback.print_exc()
+        return None, n[0]
+    finally:
+        import shutil
+        shutil.rmtree(tmpdir, ignore_errors=True)
+
+
 # ---------------------------------------------------------------- replays --
 
 def repo_head():
@@ -611,27 +651,31 @@ def run_check(mod, tier, seed):
             # fall back to the unminimised program before giving up
             path = write_replay(mod, tier, seed, v, v["program"], False, evals)
             ok, txt = verify_replay_fresh(path, cls)
-        if not ok and v.get("chunk_prefix"):
+        for hist_key in ("chunk_prefix", "process_history"):
+            if ok or not v.get(hist_key) or len(v[hist_key]) < 2:
+                continue
             # the violation needs what earlier runs of the same worker left
             # behind in the library's process-global state: replay the
-            # worker's history (the runs of that chunk up to this one)
+            # worker's history (first the runs of that chunk, then everything
+            # that worker process executed) in a fresh interpreter
             multi = dict(multi=[mod.generate(derive(seed, mod.ID, tier, j),
                                              tier)
-                                for j in v["chunk_prefix"]])
-            if _same_class(mod, multi, cls):
-                print("[%s] needs cross-run history (process-global state); "
-                      "minimising the run sequence ..." % mod.ID, flush=True)
-                try:
-                    m2, ev2 = minimise(mod, multi, cls, max_evals=300,
-                                       max_wall=120)
-                except Exception:
-                    traceback.print_exc()
-                    m2, ev2 = multi, 0
-                path = write_replay(mod, tier, seed, v, m2, True, ev2)
-                ok, txt = verify_replay_fresh(path, cls)
-                if not ok:
-                    path = write_replay(mod, tier, seed, v, multi, False, ev2)
-                    ok, txt = verify_replay_fresh(path, cls)
+                                for j in v[hist_key]])
+            path = write_replay(mod, tier, seed, v, multi, False, 0)
+            ok, txt = verify_replay_fresh(path, cls)
+            if ok:
+                print("[%s] needs cross-run history (process-global state, "
+                      "%d runs); minimising the run sequence ..." % (
+                          mod.ID, len(multi["multi"])), flush=True)
+                m2, ev2 = _minimise_history(mod, multi, cls, path)
+                if m2 is not None:
+                    p2 = write_replay(mod, tier, seed, v, m2, True, ev2)
+                    ok2, txt2 = verify_replay_fresh(p2, cls)
+                    if ok2:
+                        path = p2
+                    else:
+                        path = write_replay(mod, tier, seed, v, multi, False,
+                                            ev2)
         print("  " + v["violation"]["msg"].replace("\n", "\n  "))
         if not ok:
             print("HARNESS-ERROR property=%s: violation did not replay in a "
